@@ -573,7 +573,7 @@ pub fn on_hdrop_begin(target: Oid) {
             b.rule = 2;
             b.obligation = vec![target];
             count(ctr::OBLIG_B, 1);
-        } else if wd.cfg.mode == Mode::Elide {
+        } else if wd.cfg.mode == Mode::Elide && !m.ledger_clean() {
             // stale records make rule A unsound as an oracle; the documented
             // algorithm's decision is used as a *prediction* only (rule 3: never
             // checked), so that drops of members' handles to each other during
